@@ -243,7 +243,8 @@ impl<'a> Emitter<'a> {
     }
 
     fn add_fn_one(&mut self, ff: &FoundFn, fs: &FnSpec, mut sig: Signature, body: Block, keys: Vec<String>, poolstr: String, part: Option<usize>) {
-        let id = match part { Some(k) => format!("{}::{}#part{}", fs.src, fs.path, k), None => format!("{}::{}", fs.src, fs.path) };
+        let cl = match fs.closure { Some(k) => format!("::{{closure#{}}}", k), None => String::new() };
+        let id = match part { Some(k) => format!("{}::{}{}#part{}", fs.src, fs.path, cl, k), None => format!("{}::{}{}", fs.src, fs.path, cl) };
         if let Some(r) = &fs.rename {
             sig.ident = Ident::new(r, proc_macro2::Span::call_site());
         }
